@@ -55,7 +55,7 @@ theorem hyps3Fields_of_hyps (H : HypEnv) (frag : Nat) (hfr : frag ≤ 2) :
     | none => rfl
     | some ed =>
       cases hp : Frontend.completeParams ed.params params with
-      | error e => rfl
+      | error e => simp [hp]
       | ok ps =>
         have h1 := h.1
         simp only [he, hp, Bool.and_eq_true] at h1 ⊢
@@ -75,7 +75,7 @@ theorem hyps3B_of_hypsB (H : HypEnv) (frag : Nat) (hfr : frag ≤ 2) (q : Query)
   | none => rfl
   | some root =>
     cases hp : Frontend.completeParams root.params q.rootParams with
-    | error e => rfl
+    | error e => simp [hp]
     | ok rootParams =>
       simp only [hr, hp, Bool.and_eq_true] at h ⊢
       exact ⟨h.1, hyps3Node_of_hyps H frag hfr q.root false root.target h.2⟩
